@@ -120,6 +120,12 @@ def scripts(rng, n, maxseg=6):
             elif x < 0.5:
                 # a complete statement followed by stray tokens (no semicolon in between)
                 segs.append((s + " " + rng.choice([")", "t t", "xyz 5", ", ,", "= =", "'s' 1", ") ) a"]), "junk_suffix"))
+            elif x < 0.56:
+                # a malformed statement that contains, after its failure point, words that are statement keywords in some
+                # dialect but ordinary names here (REPLACE is a function, SHOW / DESCRIBE / EXPLAIN are names): none of them
+                # may be taken for the start of a new statement
+                segs.append((rng.choice(["SELECT a b c, REPLACE(d, 'x', 'y') FROM t", "SELECT a FROM WHERE show = 1", "DELETE FROM t WHERE describe = = 2",
+                                         "SELECT a b, explain FROM t", "SELECT REPLACE(a, 'x', 'y') z z FROM t", "DELETE FROM WHERE replace(a, 'b', 'c') = 1"]), "kw_like"))
             elif x < 0.62:
                 # a malformed segment that does not begin with a statement keyword
                 ts = toks(s)
